@@ -137,6 +137,50 @@ class C14(Oracle):
                     ))
                 else:
                     ctx.probe("separated_pulses_checked")
+        v += self.check_other_channels(ctx, name, s, proto, post)
+        return v
+
+    def check_other_channels(self, ctx, name, s, proto, post):
+        """(c) across channels: when a pulse added with 'min-delay' / 'wait-for-all'
+        starts, the output of the latest pulse of every other modulated channel it
+        had to wait for (shared target; any channel for wait-for-all) is over."""
+        v = []
+        if proto not in ("min-delay", "wait-for-all"):
+            return v
+        mine = set(s.targets)
+        for other, ocs in post.channels.items():
+            if other == name or not ocs.obj.mod_bandwidth:
+                continue
+            for p1 in reversed(ocs.slots):
+                if p1.ti >= s.ti:
+                    continue
+                if p1.kind == "ddelay" and (other, p1.ti, p1.tf) not in ctx.user_pulses:
+                    continue  # automatic detuned delay (EOM idle time), not a pulse
+                if p1.kind not in ("pulse", "ddelay"):
+                    continue
+                if proto == "min-delay" and not (mine & set(p1.targets)):
+                    continue
+                a1 = _arr(p1.pulse.amplitude.samples)
+                if not len(a1) or a1.max() <= 0:
+                    # the statement separates a pulse from the MOST RECENT pulse of
+                    # the other channel; a user-added zero-amplitude pulse is one
+                    ctx.stats["cross_channel_latest_pulse_has_no_amplitude"] += 1
+                    break
+                e1 = slot_in_eom(p1, ocs)
+                y1, P1, tr1 = tail_of(ocs.obj, a1, e1)
+                b1 = max(0.01, 0.006 * float(a1.max()))
+                idx = P1 + (s.ti - p1.ti) - tr1 + 1
+                rest = y1[max(idx, 0):]
+                ctx.stats["cross_channel_outputs_checked"] += 1
+                if len(rest) and rest.max() >= b1:
+                    v.append((
+                        "C14/cross-overlap",
+                        f"{name}: pulse {s.ti}->{s.tf} added with {proto} starts while the output of {other}'s pulse {p1.ti}->{p1.tf} (shared targets {sorted(mine & set(p1.targets), key=str)}) is still {rest.max():.4g} (bound {b1:.4g})",
+                    ))
+                    return v
+                if p1.tf + fall_time(p1, ocs, e1) > s.ti - 50:
+                    ctx.probe("cross_channel_tail_near_start")
+                break  # the most recent qualifying pulse of that channel
         return v
 
     # ------------------------------------------------------------ (a)
